@@ -38,6 +38,7 @@ COVERED = {
     "name": "used for error messages and as the key under which the decision is recorded in *this* run's state; not part of the cached payload",
     "inputs": "the input values are keyed through map_inputs_to_params(inputs)",
     "cache": "opt-in flag, checked before the key is built",
+    "_rename_history": "input renames enter the key through map_inputs_to_params(inputs); output renames are positional (original output i is current output i), so the current outputs tuple in the key determines the original->current map the executor derives from the history",
     "is_interrupt": "scheduling only",
     "wait_for": "scheduling only",
 }
@@ -406,6 +407,15 @@ def run(ctx) -> None:
     ok = any(isinstance(c.func, ast.Attribute) and c.func.attr == "pop" and c.args and "_ROUTING_DECISION_KEY" in src(c.args[0]) and src(c.func.value) == "outputs" for c in db.calls_in(rrd))
     gate_guard = any(isinstance(n, ast.If) and "isinstance" in src(n.test) and any(isinstance(s, ast.Return) for s in n.body) for n in walk_local(rrd.node))
     rep.add("C09.R4", f"{rrd.qname}:pops-internal-key", ok and gate_guard, rrd.loc(), "restore pops the internal key from the outputs of gate nodes" if ok and gate_guard else "restore does not pop the internal routing key from the cached outputs")
+    # the *values* of an entry are isolated from what nodes receive: a backend that keeps references serves the same
+    # objects on every hit, so a downstream node that changes a cached value in place changes the entry — later runs
+    # differ from the uncached run.  Either the backend copies/serialises (set or get), or the served payload is deep-copied.
+    deep_on_hit = any(isinstance(c_, ast.Call) and (dotted(c_.func) or "").split(".")[-1] == "deepcopy" for c_ in db.calls_in(cc))
+    for ci_ in [k for k in db.classes.values() if k.module.name == "hypergraph.cache" and "get" in k.methods and "set" in k.methods and "Protocol" not in k.all_ext_bases() and not any(src(b).endswith("Protocol") for b in k.node.bases)]:
+        g_, s_ = ci_.methods["get"], ci_.methods["set"]
+        copies = any((dotted(c_.func) or "").split(".")[-1] in ("deepcopy", "dumps", "loads") for m_ in (g_, s_) for c_ in db.calls_in(m_))
+        oki = copies or deep_on_hit
+        rep.add("C09.R4", f"{ci_.qname}:values-isolated", oki, ci_.loc(), "the backend serialises / copies values, entries cannot be changed through served objects" if oki else "the backend stores and serves object references (only the outer dict is copied on a hit): make(n)->[n] cached, consume(items) appending in place gives totals 103, 203, 303 on three runs where the uncached run gives 103 each time")
 
     # ---- R9: identity-compared sentinels must not come back from a serialising backend ----
     check_hit_restores_sentinel(ctx, "C09.R9")
